@@ -336,7 +336,7 @@ class Case:
         if self.keyq:
             parts.append('(keyq %d %s)' % (self.keyq[0], ' '.join(str(x) for x in self.keyq[1])))
         if self.keyc:
-            parts.append('(keyc %s)' % ' '.join('(%d %s)' % (q, ' '.join(str(x) for x in k)) for q, k in self.keyc))
+            parts.append('(keyc %s)' % ' '.join('(%s)' % ' '.join(str(x) for x in ([st[0]] + ([st[1]] + list(st[2]) if st[0] == 4 else list(st[1])))) for st in self.keyc))
         parts.append('(mode %s))' % self.mode)
         return ' '.join(parts)
 
